@@ -100,7 +100,7 @@ func (in *Interp) recordFinding(kind, label, detail string) {
 	if !feasible {
 		panic(pathEnd{"infeasible"})
 	}
-	f := Finding{Harness: in.harness, Kind: kind, Label: label, Detail: detail, Choices: in.ex.trail(), PathCond: in.ex.pcString()}
+	f := Finding{Harness: in.harness, Kind: kind, Label: label, Detail: detail, Choices: in.ex.trail(), PathCond: in.ex.pcString(), Threads: in.th != nil}
 	if m != nil {
 		f.Values = in.renderInputs(m)
 	} else {
